@@ -3,7 +3,7 @@
 From Coq Require Import NArith ZArith List Bool.
 From Coq.Strings Require Import Byte.
 From LOF Require Import Base.Bytes Base.Res Model.Wire Model.Build Model.BuildSw Model.Proto Model.Parse Proofs.ParseSwP
-  Proofs.ParseRtAllP Proofs.ParseRtAll4P Proofs.ParseSwAllP Proofs.ParseSwAll2P Proofs.ParseSwAll3P.
+  Proofs.ParseRtAllP Proofs.ParseRtAll4P Proofs.ParseSwAllP Proofs.ParseSwAll2P Proofs.ParseSwAll3P Proofs.ParseSwHelloP.
 Import ListNotations.
 Open Scope N_scope.
 
@@ -14,7 +14,9 @@ Open Scope N_scope.
 Definition C04_full_statement (wf_sw : swrec -> Prop) : Prop :=
   forall s xid, wf_sw s -> xid < 4294967296 -> parse_top (wire (sw_tree xid s)) = Ok (sw_view xid s).
 
-(* THE THEOREM, for every switch-side value (Model/BuildSw.v: header-only replies, get-config
+(* THE THEOREM, for every switch-side value (Model/BuildSw.v: hello with any list of elements -
+   version bitmaps of any number of words are returned in order, elements of other types are
+   skipped -, header-only replies, get-config
    reply, error, experimenter error, port-status, features reply with any number of ports,
    flow-removed, packet-in, multipart replies description / aggregate / flow statistics with
    any number of records, instructions and actions, tlv-table reply) whose fields fit their
@@ -36,6 +38,10 @@ Print Assumptions C04_switch_values_parse_to_themselves.
 Theorem C04_examples : Forall (fun t => parse_top (wire t) = Ok t) sw_examples.
 Proof. exact sw_examples_ok. Qed.
 Print Assumptions C04_examples.
+
+Theorem C04_hello_meets_hypothesis :
+  sw_ok (SHello [HBitmap [18]; HOther 7 [xaa; xbb]; HBitmap [1; 2]; HBitmap []; HOther 0 []]) = true.
+Proof. exact hello_example_ok. Qed.
 
 Theorem C04_hello_unknown_element_skipped :
   parse_top ([x04; x00; x00; x18; x00; x00; x00; x01] ++ [x00; x01; x00; x08; x00; x00; x00; x12] ++ [x00; x07; x00; x06; xaa; xbb; x00; x00])
